@@ -42,7 +42,14 @@ type structObs struct {
 	StdOK          bool
 }
 
+type namedObs struct {
+	Kind, ID, Local, PkgName, PkgPath string
+	Members                          []string // union: member local names ; enum: exported constant names
+}
+
 type obsResult struct {
+	Nameds   []namedObs        `json:"nameds,omitempty"`
+	RootPkg  string            `json:"root_pkg,omitempty"`
 	Structs  []structObs       `json:"structs,omitempty"`
 	LoadErr  string            `json:"load_err,omitempty"`
 	Outcome  string            `json:"outcome"` // analysis outcome: ok | diag | crash | fatal
@@ -87,6 +94,7 @@ type walker struct {
 	recs    []string
 	kinds   map[string]int
 	structs []structObs
+	nameds  []namedObs
 }
 
 func safeType(n analysis.Type) (t types.Type) {
@@ -207,6 +215,24 @@ func (w *walker) visitAt(node analysis.Type, at types.Type, atCoq string) {
 		so.StdKeysKept, _ = stdJSONKeys(n.Name, true)
 		w.structs = append(w.structs, so)
 	}
+	if named, ok := types.Unalias(at).(*types.Named); ok && named.Obj().Pkg() != nil && kind != "KdTime" {
+		no := namedObs{Kind: kind, ID: tyID(named), Local: named.Obj().Name(), PkgName: named.Obj().Pkg().Name(), PkgPath: named.Obj().Pkg().Path()}
+		switch n := node.(type) {
+		case *analysis.Union:
+			for _, m := range n.Members {
+				if mt, ok := safeType(m).(*types.Named); ok {
+					no.Members = append(no.Members, mt.Obj().Name())
+				}
+			}
+		case *analysis.Enum:
+			for _, m := range n.Members {
+				if m.Const.Exported() {
+					no.Members = append(no.Members, m.Const.Name())
+				}
+			}
+		}
+		w.nameds = append(w.nameds, no)
+	}
 	var ch []string
 	for _, c := range children {
 		if namedTimeChild {
@@ -305,6 +331,8 @@ func observe(target string, what string) *obsResult {
 		}
 		nodes = w.recs
 		res.Structs = w.structs
+		res.Nameds = w.nameds
+		res.RootPkg = pkg.PkgPath
 		res.NumNodes = len(nodes)
 		res.Kinds = w.kinds
 	}
